@@ -482,5 +482,14 @@ def run(prog: Program) -> Results:
                         f"{f.key}: the document's top-level expression `{norm(u)}` is {verdict} without passing "
                         f"_resolve_target_set_from_expr: for a file with a syntax error that expression is the raw pass-through node, "
                         f"so `set`/`rm` would edit and emit a broken file instead of refusing")
+    from sa.rules import c15 as _shared_c15_6
+    _sub = _shared_c15_6.run(prog)
+    _st = _sub.rules.get("R-C15-4")
+    _r = res.rule("R-C07-6", "what is parsed is what is on disk now: no parse entry point is memoised over a file read, and nothing one-shot or shared is stored in a document (shared with R-C15-4)", floor=100)
+    if _st:
+        _r.instances, _r.obligations, _r.discharged = _st.instances, _st.obligations, _st.discharged
+    for _f in _sub.findings:
+        if _f.rule == "R-C15-4":
+            res.add("R-C07-6", _f.key, _f.where, _f.message)
     res.assumptions = ["tree-sitter's has_error flags every damaged text (external parser contract)"]
     return res
